@@ -116,20 +116,24 @@ def classify_model_section(ctx):
             if k and pool[k]:
                 cmap[pool[k].pop()] = nm
                 kinds[nm] = k
-        gsub_edges = sorted({(rng.choice(names), rng.choice(names)) for _ in range(rng.randint(0, 6))})
-        gsub_edges = [(a, b) for a, b in gsub_edges if a != b]
+        gsub_edges = sorted({((rng.choice(names),), rng.choice(names)) for _ in range(rng.randint(0, 6))})
+        gsub_edges = [(a, b) for a, b in gsub_edges if a[0] != b]
+        # ligature rules (two inputs): reached only when BOTH inputs are -- often one input is a neutral glyph
+        for _ in range(rng.randint(0, 3)):
+            x, y, z = rng.sample(names, 3)
+            gsub_edges.append(((x, y), z))
         extra_edges = sorted({(rng.choice(names), rng.choice(names)) for _ in range(rng.randint(0, 4))})
         has_gsub = bool(gsub_edges) and i % 5 != 4
         gsub = None
         if has_gsub:
             tt = TTFont(); tt.setGlyphOrder([".notdef"] + names)
-            fea = "".join("feature ss%02d {\n    sub %s by %s;\n} ss%02d;\n" % (k + 1, a, b, k + 1) for k, (a, b) in enumerate(gsub_edges))
+            fea = "".join("feature ss%02d {\n    sub %s by %s;\n} ss%02d;\n" % (k + 1, " ".join(a), b, k + 1) for k, (a, b) in enumerate(gsub_edges))
             addOpenTypeFeaturesFromString(tt, fea)
             gsub = tt["GSUB"]
         extras = {}
         for a, b in extra_edges:
             extras.setdefault(a, set()).add(b)
-        case = {"cmap": {hex(u): g for u, g in cmap.items()}, "gsub_single_substitutions": gsub_edges if has_gsub else None,
+        case = {"cmap": {hex(u): g for u, g in cmap.items()}, "gsub_rules": [[list(a), b] for a, b in gsub_edges] if has_gsub else None,
                 "extra_substitutions": extra_edges}
         try:
             got = classifyGlyphs(unicodeScriptDirection, cmap, gsub, extras or None)
@@ -141,15 +145,16 @@ def classify_model_section(ctx):
             ctx.nontriv(("cl", i, ctx.scale))
         gl = lambda xs: G.lst([G.s(x) for x in xs], "str")
         ge = lambda es: G.lst([G.tup(G.s(a), G.s(b)) for a, b in es], "(str * str)")
+        gr = lambda es: G.lst([G.tup(gl(a), G.s(b)) for a, b in es], "rule")
         for key, kk in (("LTR", "L"), ("RTL", "R")):
             init = [nm for nm in names if kinds.get(nm) == kk]
             if not init and key not in got:
                 continue
-            cases.append(G.tup(ge(gsub_edges if has_gsub else []), ge(extra_edges), G.b(has_gsub), gl(init),
+            cases.append(G.tup(gr(gsub_edges if has_gsub else []), ge(extra_edges), G.b(has_gsub), gl(init),
                                gl([nm for nm in names if kinds.get(nm) == "N"]), gl(sorted(got.get(key, set())))))
             meta.append(dict(case, key=key, implementation=sorted(got.get(key, set()))))
     vals = ctx.coq_eval("From U2F Require Import Base.Prelude Mark.Direction.",
-                        "fun c : (list (str * str) * list (str * str) * bool * list str * list str * list str) => "
+                        "fun c : (list rule * list (str * str) * bool * list str * list str * list str) => "
                         "let '(g, x, b, l, n, got) := c in if same_set (classify (closure g) x b l n) got then 3 else 2",
                         cases, chunk=100, tag="Classify")
     for v, case in zip(vals, meta):
@@ -168,9 +173,10 @@ def direction_closure_section(ctx):
     from harness import dsgen
     rng = ctx.subrng("direction-closure")
     GL = [("n", 0x6E), ("o", 0x6F), ("n.alt", None), ("n.sc", None), ("behDotless-ar", 0x66E), ("behDotless-ar.fina", None),
-          ("behDotless-ar.alt", None), ("orphan", None), ("n.alt.sc", None), ("n.alt2", None)]
+          ("behDotless-ar.alt", None), ("orphan", None), ("n.alt.sc", None), ("n.alt2", None), ("hyphen", 0x2D), ("n_hyphen", None)]
     # (n.alt.sc is reached from n only through a designspace rule FOLLOWED by a GSUB rule, n.alt2 through two rules)
-    GSUB = ("feature smcp {\n    sub n by n.sc;\n    sub n.alt by n.alt.sc;\n} smcp;\n"
+    # (n_hyphen: a ligature of a left-to-right letter and a NEUTRAL glyph -- reachable only when the neutral glyphs take part)
+    GSUB = ("feature smcp {\n    sub n by n.sc;\n    sub n.alt by n.alt.sc;\n} smcp;\nfeature liga {\n    sub n hyphen by n_hyphen;\n} liga;\n"
             "feature fina {\n    sub behDotless-ar by behDotless-ar.fina;\n} fina;\n")
     for i in range(ctx.budget(12, 48)):
         lib = ["ufoLib2", "defcon"][i % 2]
@@ -183,10 +189,11 @@ def direction_closure_section(ctx):
         desc = {"glyphs": glyphs, "features": "languagesystem DFLT dflt;\n" + (GSUB if with_gsub else ""), "glyphOrder": [n for n, _ in GL]}
         rules = mode != "static"
         # closure of the cmap's left-to-right glyphs under the GSUB rules above and the designspace rules below
-        edges = ([("n", "n.sc"), ("n.alt", "n.alt.sc")] if with_gsub else []) + ([("n", "n.alt"), ("n.alt", "n.alt2")] if rules else [])
-        ltr = {"n", "o"}
+        edges = ([(("n",), "n.sc"), (("n.alt",), "n.alt.sc"), (("n", "hyphen"), "n_hyphen")] if with_gsub else []) + \
+                ([(("n",), "n.alt"), (("n.alt",), "n.alt2")] if rules else [])
+        ltr, neutral = {"n", "o"}, {"hyphen"}
         while True:
-            more = {b for a, b in edges if a in ltr} - ltr
+            more = {b for a, b in edges if all(x in ltr | neutral for x in a)} - ltr - neutral
             if not more:
                 break
             ltr |= more
